@@ -74,7 +74,10 @@ def select(prop, tier):
     return hs
 
 
-def run_kani(crate, harnesses, seed, timeout_s, jobs, tag, extra=None, harness_dir=HARNESS_DIR):
+PB_MEM_LIMIT_KB = int(os.environ.get("VERIF_PB_MEM_KB", str(36 * 1024 * 1024)))  # concrete playback: kani-driver parses CBMC's full JSON trace
+
+
+def run_kani(crate, harnesses, seed, timeout_s, jobs, tag, extra=None, harness_dir=HARNESS_DIR, mem_kb=None):
     """One cargo kani invocation over several harnesses of one crate. Returns (json|None, log_text, rc, wall)."""
     os.makedirs(WORK, exist_ok=True)
     out_json = os.path.join(WORK, "out-%s-%d.json" % (tag, os.getpid()))
@@ -89,7 +92,7 @@ def run_kani(crate, harnesses, seed, timeout_s, jobs, tag, extra=None, harness_d
         cmd += ["--harness", h["name"]]
     if extra:
         cmd += extra
-    shell = "ulimit -v %d; exec \"$@\"" % MEM_LIMIT_KB
+    shell = "ulimit -v %d; exec \"$@\"" % (mem_kb or MEM_LIMIT_KB)
     t0 = time.time()
     with open(log_path, "w") as lf:
         p = subprocess.run(["bash", "-c", shell, "kani"] + cmd, cwd=os.path.join(REPO, CRATE_DIR[crate]),
@@ -262,7 +265,7 @@ def _playback_env(seed, scratch, crate, profile):
     return env
 
 
-def run_playback_tests(h, seed, tests, profiles=("dev", "release"), budget_s=900):
+def run_playback_tests(h, seed, tests, profiles=("dev", "release"), budget_s=900, extra_names=None):
     """Append the generated unit tests to a scratch copy of the harness file and run them natively."""
     scratch = os.path.join(WORK, "playback-%d" % os.getpid())
     if os.path.exists(scratch):
@@ -271,7 +274,7 @@ def run_playback_tests(h, seed, tests, profiles=("dev", "release"), budget_s=900
     with open(os.path.join(scratch, h["file"]), "a") as f:
         for t in tests:
             f.write("\n// generated by Kani concrete playback\n" + t + "\n")
-    names = [re.search(r"fn (kani_concrete_playback_\w+)", t).group(1) for t in tests]
+    names = [re.search(r"fn (kani_concrete_playback_\w+)", t).group(1) for t in tests] + list(extra_names or [])
     results = {}
     for profile in profiles:
         env = _playback_env(seed, scratch, h["crate"], profile)
@@ -308,7 +311,7 @@ def concrete_playback(h, seed, timeout_s, profiles=("dev", "release")):
         extra += ["--cbmc-args", "--unwindset", ",".join(h["_unwindset_resolved"])]
     elif h.get("cbmc_args"):
         extra += ["--cbmc-args"] + h["cbmc_args"]
-    data, text, rc, wall, lp = run_kani(h["crate"], [h], seed, timeout_s, 1, "pb", extra=extra)
+    data, text, rc, wall, lp = run_kani(h["crate"], [h], seed, timeout_s, 1, "pb", extra=extra, mem_kb=PB_MEM_LIMIT_KB)
     m = PLAYBACK_RE.findall(text)
     tests = [t for t in m if "kani_concrete_playback" in t and "Check for `cover`" not in t]
     fallback = False
@@ -319,6 +322,18 @@ def concrete_playback(h, seed, timeout_s, profiles=("dev", "release")):
         # panics natively the failure is confirmed; if none does, the run stays inconclusive.
         tests = [t for t in m if "kani_concrete_playback" in t][:3]
         fallback = True
+    if not tests and h.get("native_grid"):
+        # Last resort for the heaviest harnesses (CBMC's full JSON trace of a document-level harness
+        # exhausts memory): the harness file carries a native #[test] that runs the same body over a
+        # small grid of boundary inputs. The solver's counterexample stands; the grid only has to
+        # confirm natively that the failure is real. It reproduces or the run stays inconclusive.
+        results = run_playback_tests(h, seed, [], profiles=profiles, extra_names=[h["native_grid"]])
+        repro = any(v[0] in ("panicked", "timeout", "aborted") for v in results.values())
+        detail = {k: list(v) for k, v in results.items()}
+        detail["note"] = ["native_grid", "Kani could not emit a playback test (trace too large); replayed the harness body natively over its boundary grid (%s)" % h["native_grid"]]
+        if all(v[0] == "error" for v in results.values()):
+            return None, None, "native grid did not build/run: %s" % list(results.values())[0][1]
+        return repro, ["// native grid test %s in %s" % (h["native_grid"], h["file"])], detail
     if not tests:
         return None, None, "kani produced no concrete playback test for a failed check (log %s)" % lp
     tests = tests[:2]
